@@ -127,7 +127,7 @@ func specFor(runSeed int64, b compBatch, g, j int) tripSpec {
 		k := g*b.Trips + j // enumerate compressor × kind × size
 		s.Comp = compNames[k%3]
 		s.Kind = []string{"random", "repeat", "compressed", "mixed", "text", "zeros"}[(k/3)%6]
-		s.Size = bigSizes[(k/18+k/3)%len(bigSizes)]
+		s.Size = bigSizes[(k/18+k/3+b.Batch)%len(bigSizes)]
 	} else {
 		s.Comp = compNames[r.Intn(3)]
 		s.Kind = payloadKinds[r.Intn(len(payloadKinds))]
@@ -337,7 +337,11 @@ func compPlan(r *ev.Run) []compBatch {
 	nb := r.Pick(6, 150)
 	for i := 0; i < nb; i++ {
 		g := gs[i%3]
-		out = append(out, compBatch{Part: "compress", Batch: i, Goroutines: g, Trips: r.Pick(1920, 3840) / g / r.Pick(16, 1) * r.Pick(1, 1)})
+		t := r.Pick(128, 208) / g
+		if t < 1 {
+			t = 1
+		}
+		out = append(out, compBatch{Part: "compress", Batch: i, Goroutines: g, Trips: t})
 	}
 	// few dozen (quick) / few hundred (thorough) MiB-size trips: the race build is ~30x slower there
 	nbig := r.Pick(1, 18)
